@@ -339,3 +339,42 @@ Definition http_outcome (m : hmode) (r : hreply) : outcome :=
 
 Definition seq_run_http (ts : list tmpl) (hs : list (hmode * hreply)) (ps0 : params) : list event * result :=
   seq_run ts (map (fun x => http_outcome (fst x) (snd x)) hs) ps0.
+
+(* ---------- sequential_propagated_params: entries added to the replacement table of every
+   backend but the first (rePropagatedParams over the configured strings, here already as
+   (index, path) pairs; entries whose index is not a backend are dropped at configuration
+   time).  They only fill request.Params; the extended loop also reports the parameter
+   table each backend is called with. ---------- *)
+
+Definition repl_of (jp : nat * list string) : repl :=
+  {| r_idx := fst jp; r_dest := dest_key (fst jp) (snd jp); r_src := snd jp |}.
+
+Fixpoint seq_loop_x (extra : list repl) (bes : list (bcfg * outcome)) (i : nat) (parts : list (option resp))
+         (ps reg : params) (a : acc) : list event * list (nat * params) * result :=
+  match bes with
+  | [] => ([], [], finish a)
+  | (b, o) :: rest =>
+      let '(ps', reg') :=
+        if (i =? 0)%nat then (ps, reg)
+        else fold_left (apply_repl i parts) (b_tab b ++ extra)%list (ps, reg) in
+      let evs := [ECall i (generate_path (b_pat b) ps'); ERet i] in
+      let pv := [(i, ps')] in
+      match o with
+      | OResp r =>
+          let a' := acc_merge a (MP r) in
+          if complete r then
+            let '(tr, pr, res) := seq_loop_x extra rest (S i) (parts ++ [Some r])%list ps' reg' a' in
+            ((evs ++ tr)%list, (pv ++ pr)%list, res)
+          else (evs, pv, finish a')
+      | OErr e =>
+          if (i =? 0)%nat then (evs, pv, (None, RRaw e)) else (evs, pv, finish (acc_merge a (MF e)))
+      | OEmpty =>
+          if (i =? 0)%nat then (evs, pv, (None, RRaw ENull)) else (evs, pv, finish (acc_merge a (MF ENull)))
+      end
+  end.
+
+Definition seq_run_x (ts : list tmpl) (props : list (nat * list string)) (outs : list outcome) (ps0 : params)
+  : list event * list (nat * params) * result :=
+  let bes := combine (map bcfg_of ts) outs in
+  let extra := map repl_of (filter (fun jp => (fst jp <? List.length ts)%nat) props) in
+  seq_loop_x extra bes 0 [] ps0 [] (acc_init (List.length bes)).
